@@ -680,6 +680,15 @@ def vec_push(exe, path, callee, args, dst_ty):
     return [('ret', path, UNIT)]
 
 
+@contract(r'^Vec::<.*>::len$|^Vec::<.*>::is_empty$')
+def vec_len(exe, path, callee, args, dst_ty):
+    v = exe.deref_all(path, args[0])
+    if not (isinstance(v, Agg) and v.name == 'Vec'):
+        raise MirUnsupported('Vec::len on %r' % (v,))
+    n = len(v.fields)
+    return [('ret', path, z3.IntVal(n) if callee.endswith('len') else z3.BoolVal(n == 0))]
+
+
 @contract(r'^Vec::<.*>::pop$')
 def vec_pop(exe, path, callee, args, dst_ty):
     ref = args[0]
